@@ -195,13 +195,34 @@ def write_cat(path, srcs, renaming, rng):
     cols[cm['b_col']] = [float(s["b"]) for s in srcs]
     cols[cm['pa_col']] = [float(s["pa"]) for s in srcs]
     cols['local_rms'] = [float(s["rms"]) for s in srcs]
-    t = Table(cols)
     if path.endswith(".vot"):
-        t.write(path, format='votable', overwrite=True)
-    elif path.endswith(".csv"):
+        return write_votable(path, cols)
+    t = Table(cols)
+    if path.endswith(".csv"):
         t.write(path, format='ascii.csv', overwrite=True)
     else:
         t.write(path, overwrite=True)
+    return path
+
+
+def write_votable(path, cols):
+    """minimal VOTable (TABLEDATA) written by hand: floats as repr (exact float64), ints as int.
+    (astropy's own VOTable *writer* is not used: its C extension corrupts the heap in this
+    environment when tables of varying structure are written from one process.)"""
+    names = list(cols)
+    n = len(cols[names[0]])
+    out = ['<?xml version="1.0" encoding="utf-8"?>',
+           '<VOTABLE version="1.3" xmlns="http://www.ivoa.net/xml/VOTable/v1.3">',
+           ' <RESOURCE type="results">', '  <TABLE>']
+    for c in names:
+        dt = "int" if all(isinstance(v, int) for v in cols[c]) else "double"
+        out.append('   <FIELD ID="%s" name="%s" datatype="%s"/>' % (c, c, dt))
+    out += ['   <DATA>', '    <TABLEDATA>']
+    for i in range(n):
+        out.append('     <TR>' + ''.join('<TD>%s</TD>' % (repr(cols[c][i]),) for c in names) + '</TR>')
+    out += ['    </TABLEDATA>', '   </DATA>', '  </TABLE>', ' </RESOURCE>', '</VOTABLE>', '']
+    with open(path, "w") as f:
+        f.write("\n".join(out))
     return path
 
 
@@ -298,7 +319,9 @@ def obs_single(task):
     cat = write_cat(pre + rng.choice([".fits", ".csv", ".vot"]), [s], renaming, rng)
     rec = {"id": "single/%s/%d" % (zone, seed), "kind": "single", "err": "", "H": H, "W": W,
            "src": src_token(s), "raised": False, "n_in5": 0, "dev_with_e9": IMAX,
-           "dev_zero_e9": IMAX, "_task": list(task), "_zone": zone, "_exc": ""}
+           "dev_zero_e9": IMAX, "_task": list(task), "_zone": zone, "_exc": "",
+           "_info": {"proj": proj, "cdelt_arcsec": sc["cd"], "crval": sc["crval"], "rot_deg": sc["rot"],
+                     "catalogue": os.path.basename(cat), "renaming": renaming, "source": s}}
     try:
         wh = real(wcs_helpers.WCSHelper.from_header, sc["h"])
         L = real(AeRes.load_sources, cat, **COLMAPS[renaming])
@@ -373,7 +396,9 @@ def obs_additive(task):
            "srcs": [src_token(s) for s in srcs], "nA": len(A), "nB": len(B),
            "n_off": len(srcs) - len(on), "raised": False, "add_dev_e9": IMAX, "comm_dev_e9": IMAX,
            "singles_dev_e9": IMAX, "off_dev_e9": IMAX, "samples": [],
-           "_task": list(task), "_zones": zones, "_exc": ""}
+           "_task": list(task), "_zones": zones, "_exc": "",
+           "_info": {"proj": proj, "cdelt_arcsec": sc["cd"], "crval": sc["crval"], "rot_deg": sc["rot"],
+                     "A": A, "B": B, "sources": srcs}}
     try:
         wh = real(wcs_helpers.WCSHelper.from_header, sc["h"])
         L = real(AeRes.load_sources, cat)
@@ -455,8 +480,6 @@ def obs_run(task):
         return None
     variant = "f32" if lattice else rng.choice(["f32", "f32", "f64", "4d"])
     fmt = rng.choice([".fits", ".csv", ".vot"])
-    if os.environ.get("C14_FMT"):
-        fmt = rng.choice(os.environ["C14_FMT"].split(","))
     pk = max(abs(s["peak"]) for s in srcs)
     nrng = np.random.default_rng(seed)
     yy, xx = np.mgrid[0:H, 0:W]
@@ -473,7 +496,10 @@ def obs_run(task):
            "kind": "run", "err": "", "op": op, "thr": thr, "renaming": renaming, "proj": proj,
            "shape": shape, "via": via, "H": H, "W": W, "srcs": [src_token(s) for s in srcs],
            "n_inside": sum(1 for s in srcs if on_image(s, sc)),
-           "_task": list(task), "_zones": offz, "_variant": variant, "_fmt": fmt}
+           "_task": list(task), "_zones": offz, "_variant": variant, "_fmt": fmt,
+           "_info": {"cdelt_arcsec": sc["cd"], "crval": sc["crval"], "rot_deg": sc["rot"], "image": variant,
+                     "catalogue_format": fmt, "frac": frac, "sigma": sigma, "colmap": COLMAPS[renaming],
+                     "sources": srcs}}
     cm = COLMAPS[renaming]
     try:
         if not masky:
@@ -553,6 +579,7 @@ def obs_run(task):
             "mm_bad": int((~(np.isnan(mm) | (mm == 0))).sum() + (np.isnan(mm) != blank).sum()),
             "single_max_e9": [dev9(maxdev(M), abs(s["peak"])) for M, s in zip(Ms, srcs)],
             "_frac": frac, "_sigma": sigma})
+        rec["_info"].update({"frac": frac, "sigma": sigma, "n_blank": int(blank.sum())})
         return rec
     except CodeRaised as e:
         rec["err"] = str(e)
@@ -595,7 +622,8 @@ def obs_loop(task):
     pk = max(abs(s["peak"]) for s in srcs)
     rms = 0.01 * min(abs(s["peak"]) for s in srcs)
     rec = {"id": "loop/%d" % seed, "kind": "loop", "err": "", "H": H, "W": W, "n_true": len(srcs),
-           "n_found": -1, "res_e9": IMAX, "_task": list(task)}
+           "n_found": -1, "res_e9": IMAX, "_task": list(task),
+           "_info": {"proj": proj, "cdelt_arcsec": cd, "beam_px": bm, "rms": rms, "sources": srcs}}
     try:
         with contextlib.redirect_stderr(io.StringIO()):
             found = real(SourceFinder().find_sources_in_image, imgf, rms=rms, bkg=0.0, cores=1, nonegative=False,
@@ -679,6 +707,13 @@ def key_of(rec, fails):
             q += " shape=%s proj=%s" % (rec["shape"], rec["proj"])
         return "run op=%s fails=%s%s" % (rec["op"], f, q)
     return "%s fails=%s" % (k, f)
+
+
+def detail_of(rec, fails):
+    """what replay() needs (task) + the concrete inputs and the logged observation."""
+    obs = {k: v for k, v in rec.items() if not k.startswith("_") and k not in ("models", "blank", "samples")}
+    return {"task": rec["_task"], "fails": fails, "id": rec["id"], "err": rec.get("err") or rec.get("_exc", ""),
+            "inputs": rec.get("_info", {}), "observed": obs}
 
 
 def selftest(ctx):
@@ -820,7 +855,7 @@ def run(ctx):
         tasks.append(("additive", base + 700000 + k, ["SIN", "TAN", "ZEA"][k % 3]))
     # (5) find -> subtract
     for k in range(32 if quick else 480):
-        tasks.append(("loop", base + 800000 + k, ["csv", "vot"][k % 2], ["api", "cli"][(k // 2) % 2]))
+        tasks.append(("loop", base + 800000 + k, ["csv", "tab"][k % 2], ["api", "cli"][(k // 2) % 2]))
 
     d = os.path.join(ctx.workdir, "files")
     os.makedirs(d, exist_ok=True)
@@ -866,12 +901,13 @@ def run(ctx):
         "at most three sources' 5-sigma footprints overlap on a pixel and image values stay within ~2x the peak so that "
         "float32 accumulation stays inside the property's 1e-6 for any summation order",
         "closed loop: sources sampled with >= 4 px per FWHM, at least the beam in size, peaks within a factor 3, "
-        "rms = 1% of the faintest, docov=False, catalogue saved as csv / vot (FITS tables are float32 by format, C18)",
+        "rms = 1% of the faintest, docov=False, catalogue saved as csv / tab (FITS tables are float32 by format, C18; "
+        "astropy's VOTable writer is avoided: its C extension corrupts the heap in this environment, so VOTable "
+        "catalogues are written by hand as TABLEDATA and only read by the code under test)",
         "catalogue tables are written with astropy.table (float64 columns)",
     ]
     for rec, fails in rejected:
-        ctx.violation(key_of(rec, fails), {"task": rec["_task"], "fails": fails, "id": rec["id"],
-                                           "err": rec.get("err") or rec.get("_exc", "")})
+        ctx.violation(key_of(rec, fails), detail_of(rec, fails))
 
 
 def replay(ctx, rec):
@@ -883,7 +919,6 @@ def replay(ctx, rec):
     if r is None:
         raise common.MachineryError("replayed case is unusable")
     for rr, fails in validate(ctx, [r], "replay"):
-        ctx.violation(key_of(rr, fails), {"task": rr["_task"], "fails": fails, "id": rr["id"],
-                                          "err": rr.get("err") or rr.get("_exc", "")})
+        ctx.violation(key_of(rr, fails), detail_of(rr, fails))
     ctx.sample({k: v for k, v in r.items() if not k.startswith("_") and k not in ("models", "blank", "samples")})
     ctx.count(evaluations=1, nontrivial=1, traces=1)
